@@ -221,6 +221,23 @@ static void l3_domlen(long shard, void *arg) {
         check_email("L3domlen", t, l); MC_ADD(C_L3, 1);
     }
 }
+/* both halves near their limits at once: local part of 1..70 octets (atom, quoted, dotted) x domain of 240..262 characters (3 label layouts,
+ * with and without root dot); a limit on the WHOLE address, or one half's limit applied to the other, shows only in this product */
+static void l3_product(long shard, void *arg) {
+    (void)arg; int ln = (int)shard + 1;
+    unsigned char t[420]; size_t l;
+    for (int lsh = 0; lsh < 3; lsh++) for (int total = 240; total <= 262; total++) for (int lay = 0; lay < 3; lay++) for (int root = 0; root < 2; root++) {
+        l = 0;
+        if (lsh == 0) { memset(t, 'a', (size_t)ln); l = (size_t)ln; }
+        else if (lsh == 1) { if (ln < 3) continue; t[l++] = '"'; memset(t + l, 'b', (size_t)ln - 2); l += (size_t)ln - 2; t[l++] = '"'; }
+        else { if (ln < 3) continue; for (int i = 0; i < ln; i++) t[l++] = (i % 2 && i != ln - 1) ? '.' : 'c'; }
+        t[l++] = '@';
+        int lab = lay == 0 ? 63 : lay == 1 ? 1 : 31, left = total;
+        while (left > 0) { int take = left > lab ? lab : left; if (left - take == 1) take = left; if (take > 63 && lab == 63) { take = 62; } memset(t + l, 'a', (size_t)take); l += (size_t)take; left -= take; if (left > 0) { t[l++] = '.'; left--; } }
+        if (root) t[l++] = '.';
+        check_email("L3product", t, l); MC_ADD(C_L3, 1);
+    }
+}
 static void l3_at(long shard, void *arg) {
     (void)arg; (void)shard;
     static const char *const SK[] = { "ab.cd.efgh", "\"ab\".cd.ef", "a[1.2.3.4]", "ab.[::1].c" };
@@ -377,6 +394,7 @@ int main(int argc, char **argv) {
     mc_parallel("L2: 19 templates x 255 bytes (+ byte pairs)", NTPL, l2_shard, NULL);
     mc_parallel("L3: local part length 0..70 x 5 shapes x 5 domains", 71, l3_lpart, NULL);
     mc_parallel("L3: domain length 1..262 x label sizes x root dot", 262, l3_domlen, NULL);
+    mc_parallel("L3: local part 1..70 octets (3 shapes) x domain 240..262 characters (3 layouts, root dot): both halves near their limits", 70, l3_product, NULL);
     mc_parallel("L3: 0-4 '@' at every position of 4 skeletons; every '['..']' placement", 1, l3_at, NULL);
     memset(&L4E, 0, sizeof L4E); L4E.A = SIGLIT; L4E.nA = 7; L4E.N = mc_thorough ? 8 : 7; L4E.k = 2; L4E.fn = l4_cb;
     mc_parallel("L4: all bracket contents over {1 0 a : . IPv6: 25}", mc_enum_shards(&L4E), l4_shard, NULL);
@@ -387,7 +405,7 @@ int main(int argc, char **argv) {
     munmap(HB, HBCAP);
     mc_parallel("L6: 8 local-part shapes around every byte 0x01-0xFF x 24 domain shapes", 255, l6_shard, NULL);
     if (corpus_load()) return 2;
-    { static const int PH[] = { CP_LONGIDN, CP_ALTDOT, CP_LABELLEN, CP_MAXLIT, CP_LPXDOM, CP_WHOLEDOM };
+    { static const int PH[] = { CP_LONGIDN, CP_ALTDOT, CP_LABELLEN, CP_MAXLIT, CP_LPXDOM, CP_WHOLEDOM, CP_DEPTH };
       for (unsigned i = 0; i < sizeof PH / sizeof PH[0]; i++) { L5PH = PH[i]; char nm5[80]; snprintf(nm5, sizeof nm5, "L5: %.60s", corpus_name(L5PH)); mc_parallel(nm5, corpus_shards(L5PH), l5_shard, NULL); } }
     int N = mc_thorough ? 8 : 6;
     memset(&L1E, 0, sizeof L1E); L1E.A = SIGC; L1E.nA = NSIGC; L1E.N = N; L1E.k = 3; L1E.fn = l1_cb;
